@@ -85,7 +85,9 @@ func VerifH_C18_omit() {
 	s := vStartServer(8)
 	size := [3]uint32{0, 64, 4096}[vRange(0, 2)]
 	s.sc.h = func(ctx *fasthttp.RequestCtx) {
-		ctx.Response.SetStatusCode(200)
+		// 201 is not in the static table: the encoder inserts it if it thinks
+		// it has a dynamic table, and refers to the entry the second time
+		ctx.Response.SetStatusCode(201)
 		ctx.Response.Header.Set("x-k", "v1")
 	}
 	s.send(vFrame(0x4, 0x0, 0, []byte{0, 1, byte(size >> 24), byte(size >> 16), byte(size >> 8), byte(size)}))
